@@ -20,6 +20,7 @@ import (
 	"context"
 	"fmt"
 	"io"
+	"math"
 	"strings"
 	"sync"
 
@@ -35,6 +36,9 @@ import (
 // added to the graph. The int value returns the number of triples added.
 func ReadIntoGraph(ctx context.Context, g storage.Graph, r io.Reader, b literal.Builder) (int, error) {
 	cnt, scanner := 0, bufio.NewScanner(r)
+	// A line holds a whole triple and literals have no size limit, so lines
+	// may be longer than the scanner's default maximum token size.
+	scanner.Buffer(make([]byte, 0, bufio.MaxScanTokenSize), math.MaxInt)
 	scanner.Split(bufio.ScanLines)
 	for scanner.Scan() {
 		text := strings.TrimSpace(scanner.Text())
@@ -51,7 +55,7 @@ func ReadIntoGraph(ctx context.Context, g storage.Graph, r io.Reader, b literal.
 		cnt++
 	}
 	if err := scanner.Err(); err != nil {
-		// The reader failed, or a line does not fit in the scanner's buffer.
+		// The reader failed.
 		return cnt, err
 	}
 	return cnt, nil
